@@ -57,6 +57,25 @@ def refactor_twins(prop: str, root: str) -> List[Tuple]:
     return out
 
 
+def seeded_variants(prop: str, already: List[Tuple]) -> List[Tuple]:
+    """Seeded changes written against this property (seeded/<prop>-n) that the hand-written variant list does not mention yet:
+    each must keep firing the rule recorded for it in its meta.json (`tools/seed.py detect`)."""
+    import glob
+    import json
+    from .core import VERIF
+    named = {v[2] for v in already if v[1] == "@patch"}
+    out = []
+    for d in sorted(glob.glob(os.path.join(VERIF, "seeded", f"{prop}-*"))):
+        rel = os.path.relpath(os.path.join(d, "patch.diff"), VERIF)
+        mp = os.path.join(d, "meta.json")
+        if rel in named or not os.path.exists(mp):
+            continue
+        rules = json.load(open(mp)).get("detected_by", {}).get(prop, {}).get("rules", [])
+        if rules:
+            out.append((f"seeded {os.path.basename(d)} (independent sub-agent)", "@patch", rel, None, rules[0]))
+    return out
+
+
 def _keys(prop: str, root: str, use_cache: bool) -> Tuple[set, Optional[str]]:
     from . import cli, core, loader
     try:
@@ -164,7 +183,8 @@ def variants_for(prop: str) -> List[Tuple]:
 
 def run_for(prop: str, root: str, jobs: int = 16) -> Result:
     res = Result()
-    vs = variants_for(prop) + refactor_twins(prop, root)
+    vs = variants_for(prop)
+    vs = vs + seeded_variants(prop, vs) + refactor_twins(prop, root)
     res.total = len(vs)
     if not vs:
         return res
